@@ -360,8 +360,11 @@ def len_term_bounds(a, facts, t, point):
             if v is not None:
                 return v, v
             return sym_bounds(facts, raws[0]['raw'])
-    if t[0] == 'call' and t[1] == 'core::mem::size_of' and t[4] and t[4][4] == ('aead::Seq',):
-        return 8, 8
+    if t[0] == 'call' and t[1] == 'core::mem::size_of':
+        from .common import size_of_term
+        v = size_of_term(facts, t)
+        if v is not None:
+            return v, v
     if t[0] == 'bin' and t[1] in ('Add', 'Sub'):
         x, y = len_term_bounds(a, facts, t[2], point), len_term_bounds(a, facts, t[3], point)
         if x is None or y is None:
